@@ -100,7 +100,7 @@ CHECKS = {
         "technique": "translator-regenerated Coq model + proof by finite check and induction + model/implementation correspondence in vm_compute + sanitizer runs of the executables",
     },
     "C12": {
-        "text": "Coq theorems: str2xml's output is decoded back to the input by standard XML entity decoding for every byte string (hence no raw < or &), and is injective; correspondence K: Strings.str2xml vs GNU_gama::str2xml exhaustively on short strings over an alphabet with all XML specials plus random hostile strings, compared inside coqc",
+        "text": "Coq theorems: str2xml's output is decoded back to the input by standard XML entity decoding for every byte string (hence no raw < or &), and is injective; correspondence K: Strings.str2xml vs GNU_gama::str2xml exhaustively on short strings over an alphabet with all XML specials plus random hostile strings, compared inside coqc. E (rebuilt gama-local under ASan+UBSan, generated networks with hostile ids / descriptions, correlated clusters, all eight axes declarations, --cov-band): the adjustment XML is well-formed, gama's own reader (LocalNetworkAdjustmentResults::read_xml) stores exactly what an independent parse finds in the file, adjusted distances / height differences / vector components / observed coordinates equal the values computed from the adjusted coordinates of the same file, the text report carries the same coordinates, the covariance band is as requested",
         "ref": "DESIGN.md section 3 C12",
         "note": "Trusted: Coq kernel+VM; hand-written model of str2xml tied by K on generated strings; expat as the search oracle. The writers of numbers/structure are covered by the end-to-end read-back relation, not by a theorem.",
         "technique": "Coq proof (induction on the string) + model/implementation correspondence evaluated by vm_compute",
